@@ -197,6 +197,70 @@ func (e *env) barrier() {
 	b.Unblock()
 }
 
+// wedgeWait is how long a driver waits for a request of the real Adaptation before it records the run
+// as stalled: 20 s is a hundred request time-outs of the fault driver and >= 10 x the longest legitimate wait
+const wedgeWait = 20 * time.Second
+
+// fireWithin issues the request and waits at most d for it; false = still blocked (the goroutine is abandoned).
+func (e *env) fireWithin(rq request, d time.Duration) (reqResult, bool) {
+	done := make(chan reqResult, 1)
+	go func() { done <- e.fire(rq) }()
+	select {
+	case r := <-done:
+		return r, true
+	case <-time.After(d):
+		return reqResult{Err: fmt.Sprintf("the request had not returned after %v: the adaptation is blocked", d), Nil: true, Dur: d}, false
+	}
+}
+
+// closeWithin stops the adaptation and removes its scratch directory, but never waits longer than d
+// (Stop takes the adaptation lock; a wedged adaptation would hang the driver).
+func (e *env) closeWithin(d time.Duration) {
+	done := make(chan struct{})
+	go func() {
+		e.close()
+		close(done)
+	}()
+	select {
+	case <-done:
+	case <-time.After(d):
+	}
+}
+
+// waitProgress waits for done; it gives up (false) when the progress counter has not moved for quiet.
+func waitProgress(done <-chan struct{}, progress *atomic.Int64, quiet time.Duration) bool {
+	last, since := progress.Load(), time.Now()
+	tick := time.NewTicker(200 * time.Millisecond)
+	defer tick.Stop()
+	for {
+		select {
+		case <-done:
+			return true
+		case <-tick.C:
+			if v := progress.Load(); v != last {
+				last, since = v, time.Now()
+			} else if time.Since(since) > quiet {
+				return false
+			}
+		}
+	}
+}
+
+// groupWithin waits for the wait group, at most d.
+func groupWithin(wg *sync.WaitGroup, d time.Duration) bool {
+	done := make(chan struct{})
+	go func() {
+		wg.Wait()
+		close(done)
+	}()
+	select {
+	case <-done:
+		return true
+	case <-time.After(d):
+		return false
+	}
+}
+
 // barrierWithin is barrier with a bound: false when the sync lock could not be taken in time.
 func (e *env) barrierWithin(d time.Duration) bool {
 	done := make(chan struct{})
@@ -223,7 +287,9 @@ func (e *env) waitSynced(timeout time.Duration, ps ...*plug) error {
 			return fmt.Errorf("plugin %s was not synchronized within %v", p.name, timeout)
 		}
 	}
-	e.barrier()
+	if !e.barrierWithin(timeout) {
+		return fmt.Errorf("the plugin synchronisation lock could not be taken within %v", timeout)
+	}
 	return nil
 }
 
